@@ -62,6 +62,10 @@ pub enum ModelEvaluatorError {
   EmptyFunctionBody,
   #[error("empty value expression")]
   EmptyValueExpression,
+  #[error("decision table has no output clause")]
+  DecisionTableWithoutOutputClause,
+  #[error("rule {0} of the decision table has {1} input and {2} output entries, expected {3} and {4}")]
+  InvalidNumberOfRuleEntries(usize, usize, usize, usize, usize),
   #[error("read lock failed with reason '{0}'")]
   ReadLockFailed(String),
   #[error("write lock failed with reason '{0}'")]
@@ -72,6 +76,14 @@ impl From<ModelEvaluatorError> for DmntkError {
   fn from(e: ModelEvaluatorError) -> Self {
     DmntkError::new("ModelEvaluatorError", &e.to_string())
   }
+}
+
+pub fn err_decision_table_without_output_clause() -> DmntkError {
+  ModelEvaluatorError::DecisionTableWithoutOutputClause.into()
+}
+
+pub fn err_invalid_number_of_rule_entries(rule: usize, inputs: usize, outputs: usize, expected_inputs: usize, expected_outputs: usize) -> DmntkError {
+  ModelEvaluatorError::InvalidNumberOfRuleEntries(rule, inputs, outputs, expected_inputs, expected_outputs).into()
 }
 
 pub fn err_business_knowledge_model_with_reference_not_found(reference: &str) -> DmntkError {
